@@ -59,6 +59,10 @@ func (d *dependencyAwarePostProcessors) PostProcessProperties(properties []*comp
 		//aware by name
 		if prop.TagVal != "" && (prop.Type.Kind() == reflect.Ptr || prop.Type.Kind() == reflect.Interface) {
 			dm := d.Registry.GetMetaByName(prop.TagVal)
+			// a component that cannot be assigned to the field counts as not found instead of panicking in reflect.Set
+			if dm != nil && !dm.Value.Type().AssignableTo(prop.Type) {
+				dm = nil
+			}
 			prop.Injects = append(prop.Injects, dm)
 		}
 	}
